@@ -11,7 +11,8 @@ lean/Operon/Props/C06.lean that reproduce the tables with the Lean model (`decid
                every action-type string of ACTIONS (the four recognised ones, every proper prefix / suffix of them,
                case / whitespace variants, concatenations, empty, unrelated words) x two payloads, and six action types
                x every payload shape of PAYLOADS (no dict, dict without "confidence", numeric as float / int / bool /
-               numeric string / padded string, non-numeric, None, list) x three (weight, reliability) pairs, and a
+               numeric string / padded string, out of range, negative, infinite, huge, NaN, non-numeric, None, list)
+               x three (weight, reliability) pairs, and a
                raising agent -> (vote type, confidence, weight) of the one vote in `QuorumResult.votes`
   countTable   the four counting strategies + EmergencyQuorum x custom thresholds (none, 0, shares, counts, fractional
                counts) x min_voters 0, 1, 3 x EVERY (permit, block, abstain/failed, defer) profile of 0..7 voters (the
@@ -84,6 +85,15 @@ PAYLOADS = [
     (8, F(1), lambda: {"confidence": 1}),                # int
     (8, F(0), lambda: {"confidence": 0}),
     (9, F(1), lambda: {"confidence": True}),             # bool
+    (6, F(2), lambda: {"confidence": 2.0}),               # out of range: clamped into [0, 1]
+    (7, F(5), lambda: {"confidence": "5"}),
+    (14, F(1, 2), lambda: {"confidence": -0.5}),          # code 14: the value is negative (-1/2)
+    (14, F(1), lambda: {"confidence": "-1"}),
+    (13, F(0), lambda: {"confidence": float("inf")}),     # code 13: beyond the clamp
+    (13, F(0), lambda: {"confidence": "Infinity"}),
+    (13, F(0), lambda: {"confidence": 1e308}),
+    (15, F(0), lambda: {"confidence": float("nan")}),     # code 15: NaN is rejected (a failed voter)
+    (15, F(0), lambda: {"confidence": "nan"}),
     (10, F(0), lambda: {"confidence": "high"}),
     (10, F(0), lambda: {"confidence": ""}),
     (11, F(0), lambda: {"confidence": None}),
